@@ -18,7 +18,7 @@ for pid in props:
             "evidence_file": "evidence/%s.json" % pid,
             "replay_cmd_template": "./check %s --replay {path}" % pid,
             "engine": "antfacts",
-            "level_claimed": {"category": "other", "text": (meta["explanation"] + " " + meta.get("explanation_more", "")).strip(), "design_ref": "DESIGN.md §3 %s" % pid},
+            "level_claimed": {"category": "other", "text": " ".join(meta[k_] for k_ in sorted(meta) if k_.startswith("explanation")).strip(), "design_ref": "DESIGN.md §3 %s" % pid},
             "level_note": "Trusted: rustc nightly MIR construction/callee resolution, the antfacts driver, the rule kinds in engine/py and the "
                           "hand-confirmed tables in props/%s.py; third-party crates are assumed to honour their documented contracts. "
                           "Necessary-condition rules over all CFG paths/call sites of the default-feature build; not a proof of the behavioural statement. %s"
